@@ -157,13 +157,17 @@ def tokens(arr):
 IDX_DTYPES = {'u4': np.uint32, 'u1': np.uint8, 'u2': np.uint16, 'i4': np.int32, 'i8': np.int64}
 
 
-def write_anc(grp, base, side, is_spec, idx_dtype='u4'):
+def write_anc(grp, base, side, is_spec, idx_dtype='u4', val_dtype='f4'):
     inds = index_matrix(side['sizes'], side['rate'])
     vals = value_matrix(side)
     if is_spec:
         inds, vals = inds.T, vals.T
     d_i = grp.create_dataset(base + '_Indices', data=np.ascontiguousarray(inds), dtype=IDX_DTYPES[idx_dtype])
-    d_v = grp.create_dataset(base + '_Values', data=np.ascontiguousarray(vals), dtype=np.float32)
+    if val_dtype == 'f8':
+        # double precision values that single precision cannot hold; (v * 4).round() still decodes the quarter units
+        vals = np.asarray(vals, dtype=np.float64) + 0.1
+    d_v = grp.create_dataset(base + '_Values', data=np.ascontiguousarray(vals),
+                             dtype=np.float64 if val_dtype == 'f8' else np.float32)
     for d in (d_i, d_v):
         d.attrs['labels'] = np.array(side['labels'], dtype='S')
         d.attrs['units'] = np.array(side['units'], dtype='S')
@@ -187,8 +191,8 @@ def write_usid(h5_group, ds, name='main', quantity='Current', units='nA', data=N
     h5_main = h5_group.create_dataset(name, data=arr, **kw)
     h5_main.attrs['quantity'] = quantity
     h5_main.attrs['units'] = units
-    pi, pv = write_anc(h5_group, 'Position', ds['pos'], False, ds.get('idx_dtype', 'u4'))
-    si, sv = write_anc(h5_group, 'Spectroscopic', ds['spec'], True, ds.get('idx_dtype', 'u4'))
+    pi, pv = write_anc(h5_group, 'Position', ds['pos'], False, ds.get('idx_dtype', 'u4'), ds.get('val_dtype', 'f4'))
+    si, sv = write_anc(h5_group, 'Spectroscopic', ds['spec'], True, ds.get('idx_dtype', 'u4'), ds.get('val_dtype', 'f4'))
     h5_main.attrs['Position_Indices'] = pi.ref
     h5_main.attrs['Position_Values'] = pv.ref
     h5_main.attrs['Spectroscopic_Indices'] = si.ref
